@@ -109,6 +109,12 @@ def step(c, tree, st):
     if s == "catl":
         extra = (7.0,) if tree["k"] == "tuple" else [7.0]
         return (extra + c)[i + 1]
+    if s == "catr0":
+        return (c + (() if tree["k"] == "tuple" else []))[i]
+    if s == "catl0":
+        return ((() if tree["k"] == "tuple" else []) + c)[i]
+    if s == "resplit":
+        return (c[:st["a"]] + c[st["a"]:])[i]
     if s == "key":
         return c[tree["keys"][i]]
     if s == "get":
